@@ -419,6 +419,7 @@ class ElectionProfile:
         #  a list of candidate names, quoted
         #  we know in advance how many there should be
         #
+        name = ''
         for cid in range(1, self.nCand+1):
             try:
                 name = next(blt)
